@@ -189,7 +189,11 @@ func runScenario(run *evid.Run, src *source, k, nscen, nextra int) {
 	}
 	fp := genFault(run.Seed, src.idx, k, s.plan)
 	if s.plan.Kind == 8 || s.plan.Kind == 9 {
-		fp = nil // these templates run against a server that answers correctly
+		fp = nil // these templates run against a server that answers correctly …
+	}
+	if s.plan.ExhaustFault {
+		// … except the wide-tree cases in which an object uses up its retries and is then listed in a failing batch call
+		fp = &faultPlan{Kind: exhaustKind, Retries: 1 + (src.idx+k)%2, Via: []string{"home", "dash-c", "clone-config"}[(src.idx+k)%3], Target: 1, NVictims: 1 + (src.idx+k/3)%2, TailOnly: true}
 	}
 	if fp == nil && tail != nil && tail.FaultTail {
 		// an otherwise fault-free scenario whose last command, fetch --refetch, meets a server that fails for one or
@@ -275,6 +279,9 @@ func (s *scn) runPlan() {
 	if p.BatchSize > 0 {
 		deliver(p.CfgVia, "lfs.transfer.batchsize", fmt.Sprint(p.BatchSize))
 		deliver(p.URLVia, "lfs.concurrenttransfers", fmt.Sprint(p.Concurrent))
+	}
+	if s.fp != nil && s.fp.Kind == exhaustKind {
+		deliver(s.fp.Via, "lfs.transfer.maxretrydelay", "1")
 	}
 	if s.fp != nil {
 		deliver(s.fp.Via, "lfs.transfer.maxretries", fmt.Sprint(s.fp.Retries))
@@ -801,6 +808,10 @@ func (s *scn) trigger(c *opCtx, pi pinfo) string {
 	if c.shape != "" {
 		t += "-" + c.shape
 	}
+	if s.fs != nil && s.fs.injectedFor(pi.Oid) > 0 {
+		// the server misbehaved for this very object (now or in an earlier step)
+		return t + "-fault-" + s.fp.Kind
+	}
 	if s.src.wide && c.dups[pi.Oid] > 1 {
 		// several selected working-tree files of this wide tree share the object
 		return t + "-duplicate-content-across-batches"
@@ -808,10 +819,6 @@ func (s *scn) trigger(c *opCtx, pi pinfo) string {
 	if s.plan.RefHow != "" && c.preStore != nil && !c.preStore[pi.Oid] && s.refHas(pi.Oid) {
 		// the object was in the reference store only, and nothing in this clone had looked there yet
 		return t + "-reference-store-unlinked/" + s.plan.RefHow
-	}
-	if s.fs != nil && s.fs.injectedFor(pi.Oid) > 0 {
-		// the server misbehaved for this very object (now or in an earlier step)
-		return t + "-fault-" + s.fp.Kind
 	}
 	var incMatch, excMatch []pat
 	for _, p := range c.inc {
